@@ -53,6 +53,7 @@ Inductive rule :=
 | KSumOk                                (* |a, b, ..| Ok(a + b + ..) *)
 | KSumSome
 | KFut (inner : rule)                   (* the closure's answer wrapped in a ready future *)
+| KWAdd (k : Z)                         (* |w| w with k added to its payload (Option / Result / plain) *)
 | KPanic                                (* the closure panics when called *)
 | KPanicEval.                           (* the operand EXPRESSION panics when evaluated *)
 
@@ -66,6 +67,14 @@ Fixpoint apply_rule (r : rule) (args : list val) : option val :=     (* None = p
   match r, args with
   | KConst v, _ => Some v
   | KAdd k, [VInt x] => Some (VInt (x + k))
+  | KWAdd k, [VInt x] => Some (VInt (x + k))
+  | KWAdd k, [VSome (VInt x)] => Some (VSome (VInt (x + k)))
+  | KWAdd k, [VOk (VInt x)] => Some (VOk (VInt (x + k)))
+  | KWAdd k, [VSome (VSome (VInt x))] => Some (VSome (VSome (VInt (x + k))))
+  | KWAdd k, [VSome (VOk (VInt x))] => Some (VSome (VOk (VInt (x + k))))
+  | KWAdd k, [VOk (VSome (VInt x))] => Some (VOk (VSome (VInt (x + k))))
+  | KWAdd k, [VOk (VOk (VInt x))] => Some (VOk (VOk (VInt (x + k))))
+  | KWAdd k, [v] => Some v
   | KOptIf m r k, [VInt x] => Some (if Z.eqb (x mod m) r then VNone else VSome (VInt (x + k)))
   | KResIf m r k e, [VInt x] => Some (if Z.eqb (x mod m) r then VErr (VInt e) else VOk (VInt (x + k)))
   | KPred m r, [VInt x] => Some (VBool (negb (Z.eqb (x mod m) r)))
